@@ -148,3 +148,14 @@ def vtt_read_voice_classes(n: int, c: int) -> str:
     if n >= 3:
         tag += ".x_1"
     return _check("x" + tag + " Ann>y</v>")
+
+
+def vtt_read_timestamp_tag(hours: int, k: int, twice: bool) -> str:
+    """
+    pre: 0 <= hours <= 2 and 0 <= k <= 2
+    post: _ == ""
+    """
+    # inline cue timestamp tags <mm:ss.ttt>, <hh:mm:ss.ttt>, <hhh:mm:ss.ttt> vanish from the text
+    body = "00:05.000" if k == 0 else ("59:59.999" if k == 1 else "07:30.250")
+    tag = "<" + ("" if hours == 0 else ("01:" if hours == 1 else "123:")) + body + ">"
+    return _check("It " + tag + "will " + (tag if twice else "") + "x")
